@@ -121,6 +121,10 @@ def run(ctx):
             if arm not in ROUTING:
                 ctx.info_note('route_message also delivers in arm %s' % arm)
 
+    ctx.rule('C19.1-lossless-delivery', 'route_message delivers through ProcessHandle::send, which waits for room in the recipient\'s mailbox instead of dropping the message when it is full', floor=1)
+    from .c18 import handle_send_lossless
+    handle_send_lossless(ctx, 'C19.1-lossless-delivery')
+
     # a message for an outstanding remote call: the lookup key identifies the reply pid completely
     ctx.rule('C19.1-rpc-key', 'the router finds an outstanding remote call by a key that depends on id, serial and creation of the addressed pid: '
              'a message for a pid that merely shares some of them (an unknown recipient) must not be handed to a waiting caller', floor=1)
@@ -212,6 +216,34 @@ def run(ctx):
         same = 'continue' if _stays(L, err_t[0], loop, rb) else 'break'
         pred = ('const', None, same, same, err_t[0])
     variants = ctx.F.adts[CERR]['variants']
+
+    def loop_does(v):
+        if pred is not None and pred[0] == 'substr':
+            m = text_may_contain(texts.get(v) if texts else None, pred[1])
+            return 'either' if m == 'maybe' else (pred[2] if m == 'yes' else pred[3])
+        if pred is not None:
+            return pred[2]
+        bb_, (pl_, ty_, cases_, els_) = dsw
+        idx_ = [i for i, x in enumerate(variants) if x['n'] == v][0]
+        return 'continue' if _stays(L, dict(cases_).get(idx_, els_), loop, rb) else 'break'
+    # whatever a decoding-layer error is converted into (by `?`) must be one of the kinds the loop survives: the conversion,
+    # not only the variant name, decides what an undecodable frame looks like to the loop
+    from ..families import from_impl_variants
+    conv = from_impl_variants(P, CERR)
+    for src in sorted(conv):
+        if not (src.rsplit('::', 1)[-1] in ('DecodeError', 'ContextualDecodeError', 'TermConversionError')):
+            continue
+        for v in sorted(conv[src]):
+            inst = 'From<%s>->%s' % (src.rsplit('::', 1)[1], v)
+            got = loop_does(v)
+            if got == 'continue':
+                ctx.ok('C19.3-exit-classification', inst, 'an undecodable term becomes Error::%s, on which the loop continues' % v)
+            elif got == 'either':
+                ctx.undecided('C19.3-exit-classification', inst, 'Error::%s: loop behaviour not decided' % v)
+            else:
+                ctx.bad('C19.3-exit-classification', inst, 'a %s (an undecodable term in a correctly framed message) is converted into Error::%s, on which the receiver loop breaks: '
+                        'one bad frame ends the receiver and deregisters the connection although the peer neither closed the stream nor broke framing' % (src.rsplit('::', 1)[1], v),
+                        ctx.where(L, pred[4] if pred else dsw[0]), key='EXIT:%s:From<%s>->%s->break' % (LOOP, src.rsplit('::', 1)[1], v))
     for v in sorted(errs):
         if v.startswith('?'):
             ctx.undecided('C19.3-exit-classification', v, errs[v])
